@@ -98,6 +98,18 @@ CHECKS = {
         "DESIGN.md §4 C09",
         TRUSTED + " Verdict preservation only for pairwise unrelated subject/object identifiers, as the property states.",
     ),
+    "C04": (
+        "exhaustive enumeration of small directory trees x every module_path x both entry points with real scans vs the scan model; differential sub-scan vs restricted root scan; seam equivalence of every Space A architecture written out as a tree",
+        "Every directory tree with up to N entries (prefix-colliding names, packages with and without __init__.py) plus feature trees, placed below a neutral and below a same-named directory, is scanned with every directory as module_path through both entry points; modules, hierarchy edges and import edges are compared with the scan model, sub-directory scans with the restricted whole-root scan, and imports re-written relative to module_path's parent must still resolve. Every Space A architecture is also written out as a directory tree and the scanned graph must equal the graph built through the internal constructor used by the rule-level checks.",
+        "DESIGN.md §4 C04",
+        TRUSTED + " Tree assumptions A1-A4.",
+    ),
+    "C14": (
+        "metamorphic exhaustive enumeration: every case of the rule, layer, label and scan spaces executed under the identity naming and under injective (collision-free and adversarial) renamings of path components; results compared after mapping names back",
+        "Every (architecture, rule) case of the module-rule space (related subjects/objects included), every layer-rule case with name-defined layers, every plot-label case and every tree / externals scan case is executed under the identity naming and under four (thorough: five) injective renamings that make siblings and cousins string prefixes or substrings of each other, or differ from a nested module only in the separator; verdicts, parsed messages, layer tags, labels and module/edge sets must be equal up to the renaming. No reference model is involved except for plot labels.",
+        "DESIGN.md §4 C14",
+        TRUSTED + " Regex specifications and non-exact exclusion patterns are excluded, as the property implies.",
+    ),
 }
 
 PENDING = {}
